@@ -65,6 +65,10 @@ func Acquire(buf buffer.Buffer) Writer {
 
 var errClosed = errors.New("operation on closed writer")
 
+// closedWriter stands in for the writer of an ended message handle,
+// so that later calls on the handle return errClosed instead of dereferencing nil.
+var closedWriter = &writer{err: errClosed}
+
 type writer struct {
 	*writerState
 
@@ -92,6 +96,9 @@ func (w *writer) Err() error {
 
 // Reset resets the writer and sets its output buffer.
 func (w *writer) Reset(buf buffer.Buffer) {
+	if w == closedWriter {
+		return
+	}
 	w.err = nil
 
 	if buf == nil {
